@@ -46,6 +46,10 @@ func runSession(r Round) *outcome {
 		return o
 	}
 	sm := srv.SM
+	defer func() { // also on an aborted round (recovered panic): nothing of this server may survive
+		sm.Close()
+		srv.Cancel()
+	}()
 	var mine counter
 	sm.AddCleanHandler(func() error { mine.hit(); return nil })
 	var clients []*miniserver.Client
@@ -131,7 +135,7 @@ func runSession(r Round) *outcome {
 		o.extraClass = append(o.extraClass, "conn-accepted-during-close-left-open")
 	}
 	if leaks != nil {
-		o.failf("C16/session-manager/goroutine-leak/"+leakKeyPart(leaks[0]), "goroutines remain 2s after Close returned and all peers were closed (parent context not yet cancelled): %v", leaks)
+		o.failf("C16/session-manager/goroutine-leak/"+leakKeyPart(leaks[0]), "goroutines remain 2s after Close returned and all peers were closed (parent context not yet cancelled): %s", leakMsg(leaks))
 	}
 	// later operations fail cleanly
 	rc2 := newRace("session-manager")
